@@ -98,6 +98,23 @@ func c09Tags(c *Ctx) {
 	for _, m := range msgs {
 		st := sc.Lookup(m).Type().Underlying().(*types.Struct)
 		bt := c.P.NamedType(pkgPB, m+"Builder")
+		// a builder is meant to be reused: Reset(w) makes w the destination of everything streamed afterwards
+		if rs := c.P.DeclaredMethod(bt, "Reset"); rs != nil && len(rs.Params) == 2 {
+			ps, _ := exec(c, rs, nil, 1)
+			ok := len(ps) > 0
+			for _, p := range ps {
+				set := false
+				for _, e := range p.Effects {
+					if e.Kind == "store" && e.Addr.Op == "field" && e.Addr.Sym == "writer" && e.Addr.Args[0].isParam(0) {
+						set = stripConv(e.Val).isParam(1)
+					}
+				}
+				if !set {
+					ok = false
+				}
+			}
+			c.R.check(ok, rule, m+"Builder/Reset", shortFn(rs), c.fpos(rs), "Reset(w) makes w the builder's writer on every path", fmt.Sprintf("%d path(s)", len(ps)))
+		}
 		for i := 0; i < st.NumFields(); i++ {
 			fld := st.Field(i)
 			tag := reflect.StructTag(st.Tag(i))
@@ -228,6 +245,27 @@ func c09CheckMethod(c *Ctx, rule, key string, f *ssa.Function, kind string, num 
 			valOK = strings.HasSuffix(v.Sym, "AppendVarint") && arg.Op == "call" && strings.HasSuffix(arg.Sym, "EncodeZigZag") && stripConv(arg.Args[0]).isParam(1)
 		case "varint":
 			valOK = strings.HasSuffix(v.Sym, "AppendVarint") && stripConv(arg).isParam(1)
+		}
+		// a scalar field: the two appends are followed by exactly one write of the scratch to the builder's own writer
+		if kind != "bytes" && valOK {
+			nW := 0
+			for _, t := range seq {
+				if t.Op == "invoke" && strings.HasSuffix(t.Sym, ".Write") {
+					nW++
+					w, data := t.Args[0].unver(), t.Args[1].unver()
+					if !(w.Op == "field" && w.Sym == "writer" && w.Args[0].isParam(0) && data.Op == "field" && data.Sym == "scratch" && data.Args[0].isParam(0)) {
+						valOK = false
+						found = "writes " + data.Key() + " to " + w.Key()
+					}
+				}
+			}
+			if nW != 1 {
+				valOK = false
+				found = fmt.Sprintf("the encoded field is handed to the writer %d time(s)", nW)
+			}
+		}
+		switch kind {
+		case "fixed64", "zigzag32", "zigzag64", "varint":
 		case "bytes":
 			// length of the sub-buffer, then write scratch, then write the sub-buffer; callback ran before on a reset buffer
 			lenOK := strings.HasSuffix(v.Sym, "AppendVarint") && stripConv(arg).Op == "call" && strings.HasSuffix(stripConv(arg).Sym, "Buffer).Len")
